@@ -144,11 +144,50 @@ def check_stream(prop, tier, seed, inputs=None):
             seen.add(h)
             if len(res.samples) < 3:
                 res.samples.append({"input": list(x), "trace_head": r[:8], "actions": sum(1 for ln in r if ln.startswith("A "))})
+    if prop in ("C01", "C12"):
+        _twin_check(res, xs, real)
     res.nontrivial = seen
     res.rule = ("exhaustive parameter boxes per class + seeded random configurations + corpus; a case is "
                 "(class, parameters, finalisation point, passes); non-trivial = distinct projected real trace "
                 "that exercises the property's mechanism (checkpoint loads / a complete adjoint pass / >4 actions)")
     return res
+
+
+def _twin_check(res, xs, real):
+    """The literal twins of the Python generators (iterative loops; operation sequences + conversion
+    loop), proved equal to the stream models, are compared with the real streams as well, and the
+    operation sequences of the Revolve family with `list(sequence)` of the real code."""
+    tw = core.driver().ask_many([(f"twin {core.lean_spec(x[0])} @ {x[1]} {x[2]}", None) for x in xs])
+    n = 0
+    for x, t in zip(xs, tw):
+        r = real[x]
+        if not core.is_complete(r):
+            continue
+        acts = []
+        for ln in r:
+            if ln.startswith("A "):
+                a, f = ln[2:].split(" | ")
+                acts.append("E " + a + " | " + " ".join(f.split()[:2]))
+        cls = _class_of(x)
+        if cls in ("SM", "SD", "NO", "TL"):
+            ef = next((i for i, a in enumerate(acts) if a.startswith("E EF")), None)
+            if ef is None:
+                continue
+            acts = acts[ef:] if cls != "TL" else acts[ef + 1:]
+        n += 1
+        if t != acts:
+            k = next((i for i, (u, v) in enumerate(itertools.zip_longest(acts, t)) if u != v), 0)
+            res.disagree(x, f"iterative/operation-sequence twin differs from the implementation at event {k}: "
+                            f"impl={acts[k] if k < len(acts) else None!r} twin={t[k] if k < len(t) else None!r}")
+    res.stats["twin_streams_compared"] = n
+    rv = [x for x in xs if _class_of(x) in ("RV", "DR", "PD", "HR") and core.is_complete(real[x]) and "." not in x[0]]
+    rv = list(dict.fromkeys(x[0] for x in rv))
+    py = core.pool().map(_pyk, [("ops", s_) for s_ in rv], chunksize=16)
+    le = core.driver().ask_many([("ops " + s_, None) for s_ in rv])
+    for s_, a, b in zip(rv, py, le):
+        if a != b:
+            res.disagree((s_, 0, 1), "operation sequence differs between the twin and list(sequence) of the implementation")
+    res.stats["operation_sequences_compared"] = len(rv)
 
 
 def _excerpt(lines, idx):
